@@ -12,8 +12,8 @@ META = {
     "technique": "Rocq proofs over hand-written Gallina models: (1) util/num/bigint.rs (Natural as u64 digit list + binary exponent, the carry / shift / strip algorithms at digit level): representation invariant preserved and every operation equals the N operation on val = mantissa * 2^exp, NaN exactly where documented; (2) Saturating<uW>; (3) the three sat_count_edge recursions and SatCountCache: exact counts, exact halvings, and transparency of a cache object reused across arbitrary histories for every number type. Tie to the code: lock-step differential runs of the extracted Natural/Saturating model against the real oxidd_core::util::num::{Natural, Saturating, F64} with an independent Zarith oracle (release and debug builds), and sat_count on real BDD/BCDD/ZBDD managers with one SatCountCache per number type reused across gc / reorder / recycled node ids / added variables / changing vars, every result compared with the exact count of the handle's value table",
     "category": "proof",
     "design_ref": "DESIGN.md section 5, C12",
-    "level_text": "52 theorems in coq/Props/C12.v (checked by coqc on every run, Print Assumptions audited: all closed under the global context). Natural (C12_nat_*), for unbounded operands satisfying the representation invariant Inv (which implies the code's check_inv and is decidable): nat_add = exact sum, NaN iff an operand is NaN or the exponent of the sum reaches u64::MAX; shl = multiplication by 2^k (NaN iff exponent overflow); shr = exact quotient, NaN iff a 1 bit would be shifted out; partial_cmp = order of the denoted numbers (None iff NaN); eq and the hashed data are canonical (equal iff same number, NaN = NaN); From<u8..u128> and from_le_digits denote their argument; TryFrom -> u64/u128 is Some iff the number fits; bit_width = 1 + floor(log2); the Binary output is `?` exactly for NaN and otherwise the bits of the number without leading zeros; every operation preserves Inv. Saturating<uW> (C12_su_*): add and << return the exact result below the marker T::MAX and the marker otherwise, the marker absorbs, >> and - of in-range values are exact. sat_count (C12_sat_*): the BDD / BCDD / ZBDD recursions in exact arithmetic return 2^(vars-levels) * #satisfying assignments; every halving (a+b)>>1 is exact; the in-call cache and a cache object reused over any history of calls (other handles, gc, reordering, added variables, other vars; hypothesis: equal gc_count of consecutive calls means the node table was only extended) are transparent for EVERY number type, hence exact counts for whole histories; an entry is used only under the (gc_count, vars) it was stored under; Saturating<uW> runs: BDD exact while 2^vars is representable and the marker otherwise (0 stays 0), ZBDD exact while the count is representable and the marker otherwise. Non-vacuity examples for every group. On every run: stage 1 drives the real Natural through all operand pairs of the boundary set {0,1,2^k-1,2^k,2^k+1 | k in 31,32,63,64,65,127,128,129,191,192} (sum in both orders, all shifts {0,1,63,64,65,2^40,u64::MAX-1} in both directions, comparisons, conversions, text), conversions from all integer widths and back, f64 rounding at the precision/range limits, clone/clone_from between all representation shapes, random operands up to 512 bits in random op sequences, sat_count-like (a+b)>>1 accumulations, and Saturating<u64>/<u128>/F64 op sequences; every result is compared with the extracted model and with an independent Zarith oracle (kind=prop when the real result is not the exact value); release and debug (overflow checks, debug assertions) builds. Stage 2 runs sat_count on real managers (bdd, bcdd, zbdd): all 256 three-variable functions under a seed-chosen order (thorough: all 6), cache-reuse histories on functions over 4..10 variables with shared sub-DAGs (sat_count(f,a); gc | reorder | drop+gc+rebuild with recycled node ids | add_vars | nothing; exactly one sat_count(g,b); sat_count(h,a) on every handle sharing nodes with g; alternations), random interleavings; vars in {n, n+1, n+3, n+70, 1100}; types Saturating<u64>, Saturating<u128>, F64, Natural on reused caches and Natural on a fresh cache; every result must equal the exact count of the handle's value table.",
-    "level_note": "Proved at model level; trusted: Coq kernel, extraction, the OCaml drivers, the Rust harnesses, and that Num/Natural.v / DD/SatCount.v mirror the code (checked by the lock-step runs on every check). Not proved, correspondence only: Natural's Display/Octal/Hex output and the padding with width/fill/alternate flags of all formats (the digit string of Binary is proved; decimal digits come from dashu_int::UBig) and Natural -> f64 rounding (both compared with the extracted model and Zarith/OCaml on every run); F64 as a counting type (IEEE-754 FPU and exp2 assumed; results compared with the exact count, exactly below 2^53 and within 1e-9 relative above); Saturating runs of the BCDD recursion (BDD and ZBDD proved). The digit loops of Natural::add exist in several variants in the code (in place / fresh vector, zipped / unzipped tails) which are one function in the model; clone/clone_from and memory management are run-time matters covered by the harness only. The epoch discipline of the manager (gc_count strictly increases at every gc and reordering, node ids are not recycled otherwise) is the hypothesis hist_ok of the history theorems; it is exercised by stage 2, not proved here.",
+    "level_text": "55 theorems in coq/Props/C12.v (checked by coqc on every run, Print Assumptions audited: all closed under the global context). Natural (C12_nat_*), for unbounded operands satisfying the representation invariant Inv (which implies the code's check_inv and is decidable): nat_add = exact sum, NaN iff an operand is NaN or the exponent of the sum reaches u64::MAX; shl = multiplication by 2^k (NaN iff exponent overflow); shr = exact quotient, NaN iff a 1 bit would be shifted out; partial_cmp = order of the denoted numbers (None iff NaN); eq and the hashed data are canonical (equal iff same number, NaN = NaN); From<u8..u128> and from_le_digits denote their argument; TryFrom -> u64/u128 is Some iff the number fits; bit_width = 1 + floor(log2); the Binary output is `?` exactly for NaN and otherwise the bits of the number without leading zeros; every operation preserves Inv. Saturating<uW> (C12_su_*): add and << return the exact result below the marker T::MAX and the marker otherwise, the marker absorbs, >> and - of in-range values are exact. sat_count (C12_sat_*): the BDD / BCDD / ZBDD recursions in exact arithmetic return 2^(vars-levels) * #satisfying assignments; every halving (a+b)>>1 is exact; the in-call cache and a cache object reused over any history of calls (other handles, gc, reordering, added variables, other vars; hypothesis: equal gc_count of consecutive calls means the node table was only extended) are transparent for EVERY number type, hence exact counts for whole histories; an entry is used only under the (gc_count, vars) it was stored under; Saturating<uW> runs: BDD and BCDD exact while 2^vars is representable and the marker otherwise (0 stays 0), ZBDD exact while the count is representable and the marker otherwise. Non-vacuity examples for every group. On every run: stage 1 drives the real Natural through all operand pairs of the boundary set {0,1,2^k-1,2^k,2^k+1 | k in 31,32,63,64,65,127,128,129,191,192} (sum in both orders, all shifts {0,1,63,64,65,2^40,u64::MAX-1} in both directions, comparisons, conversions, text), conversions from all integer widths and back, f64 rounding at the precision/range limits, clone/clone_from between all representation shapes, random operands up to 512 bits in random op sequences, sat_count-like (a+b)>>1 accumulations, and Saturating<u64>/<u128>/F64 op sequences; every result is compared with the extracted model and with an independent Zarith oracle (kind=prop when the real result is not the exact value); release and debug (overflow checks, debug assertions) builds. Stage 2 runs sat_count on real managers (bdd, bcdd, zbdd): all 256 three-variable functions under a seed-chosen order (thorough: all 6), cache-reuse histories on functions over 4..10 variables with shared sub-DAGs (sat_count(f,a); gc | reorder | drop+gc+rebuild with recycled node ids | add_vars | nothing; exactly one sat_count(g,b); sat_count(h,a) on every handle sharing nodes with g; alternations), random interleavings; vars in {n, n+1, n+3, n+70, 1100}; types Saturating<u64>, Saturating<u128>, F64, Natural on reused caches and Natural on a fresh cache; every result must equal the exact count of the handle's value table.",
+    "level_note": "Proved at model level; trusted: Coq kernel, extraction, the OCaml drivers, the Rust harnesses, and that Num/Natural.v / DD/SatCount.v mirror the code (checked by the lock-step runs on every check). Not proved, correspondence only: Natural's Display/Octal/Hex output and the padding with width/fill/alternate flags of all formats (the digit string of Binary is proved; decimal digits come from dashu_int::UBig) and Natural -> f64 rounding (both compared with the extracted model and Zarith/OCaml on every run); F64 as a counting type (IEEE-754 FPU and exp2 assumed; results compared with the exact count, exactly below 2^53 and within 1e-9 relative above). The digit loops of Natural::add exist in several variants in the code (in place / fresh vector, zipped / unzipped tails) which are one function in the model; clone/clone_from and memory management are run-time matters covered by the harness only. The epoch discipline of the manager (gc_count strictly increases at every gc and reordering, node ids are not recycled otherwise) is the hypothesis hist_ok of the history theorems; it is exercised by stage 2, not proved here.",
 }
 
 ALLOWED_AXIOMS = ()
